@@ -154,22 +154,30 @@ pub type CF = Conflict<u8>;
 // representation)
 
 macro_rules! family {
-    ($fname:ident; selfs: [$($S:ty),+]; others: [$($O:ty),* $(,)?] $(; uf: $uf:tt)?) => {
-        family!(@impls [$($S),+]; [$($S),+]; [$($S,)+ $($O),*] $(; $uf)?);
+    ($fname:ident; selfs: [$($S:ty),+]; others: [$($O:ty),* $(,)?]) => {
+        family!(@impls [$($S),+]; [$($S),+]; [$($S,)+ $($O),*]; no);
+        pub fn $fname() -> Family {
+            Family { name: stringify!($fname), shape: R_SHAPE::<($($S,)+)>(), mk: vec![$(mk_rep::<$S>),+],
+                other_names: vec![$(<$S>::name(),)+ $(<$O>::name()),*],
+                other_can: vec![$(can_build::<$S>,)+ $(can_build::<$O>),*], ro_same: vec![] }
+        }
+    };
+    ($fname:ident; selfs: [$($S:ty),+]; others: [$($O:ty),* $(,)?]; uf) => {
+        family!(@impls [$($S),+]; [$($S),+]; [$($S,)+ $($O),*]; yes);
         pub fn $fname() -> Family {
             let mut f = Family { name: stringify!($fname), shape: R_SHAPE::<($($S,)+)>(), mk: vec![$(mk_rep::<$S>),+],
                 other_names: vec![$(<$S>::name(),)+ $(<$O>::name()),*],
                 other_can: vec![$(can_build::<$S>,)+ $(can_build::<$O>),*], ro_same: vec![] };
-            $( family!(@ro f; $uf; [$($O),*]); )?
+            $( f.ro_same.push((<$O>::name(), ro_same_of::<$O> as fn(&R, u8) -> Option<Result<Vec<bool>, String>>)); )*
             f
         }
     };
-    (@impls [$S:ty $(, $Rest:ty)*]; $selfs:tt; $all:tt $(; $uf:tt)?) => {
-        family!(@one $S; $selfs; $all $(; $uf)?);
-        family!(@impls [$($Rest),*]; $selfs; $all $(; $uf)?);
+    (@impls [$S:ty $(, $Rest:ty)*]; $selfs:tt; $all:tt; $uf:tt) => {
+        family!(@one $S; $selfs; $all; $uf);
+        family!(@impls [$($Rest),*]; $selfs; $all; $uf);
     };
-    (@impls []; $selfs:tt; $all:tt $(; $uf:tt)?) => {};
-    (@one $S:ty; [$($T:ty),+]; [$($O:ty),* $(,)?]) => {
+    (@impls []; $selfs:tt; $all:tt; $uf:tt) => {};
+    (@one $S:ty; [$($T:ty),+]; [$($O:ty),* $(,)?]; no) => {
         impl HasOps for $S {
             fn ops() -> Ops<Self> {
                 Ops {
@@ -193,12 +201,17 @@ macro_rules! family {
             }
         }
     };
-    (@ro $f:ident; yes; [$($O:ty),*]) => {
-        $( $f.ro_same.push((<$O>::name(), |r: &R, n: u8| {
-            let u = <$O>::build(r)?;
-            Some(vcommon::catch(|| (0..n).flat_map(|a| (0..n).map(move |b| (a, b))).map(|(a, b)| u.same(a, b).into_reveal()).collect()))
-        })); )*
-    };
+}
+
+/// same(a,b) for all a,b in 0..n on a (read-only) union-find representation built from a parent map
+pub trait UfSame: Lat {
+    fn same_(&self, a: u8, b: u8) -> bool;
+}
+macro_rules! uf_same { ($($U:ty),*) => { $( impl UfSame for $U { fn same_(&self, a: u8, b: u8) -> bool { self.same(a, b).into_reveal() } } )* } }
+uf_same!(UV, UA2, US, UO, UE);
+fn ro_same_of<U: UfSame>(r: &R, n: u8) -> Option<Result<Vec<bool>, String>> {
+    let u = U::build(r)?;
+    Some(vcommon::catch(|| (0..n).flat_map(|a| (0..n).map(move |b| (a, b))).map(|(a, b)| u.same_(a, b)).collect()))
 }
 
 /// shape of the first type of a tuple of representations
@@ -246,7 +259,7 @@ family!(fam_derive2; selfs: [D2H, D2B]; others: [D2S]);
 family!(fam_derive3; selfs: [T3A, T3B]; others: [T3S]);
 family!(fam_derive3_concrete; selfs: [D3]; others: []);
 family!(fam_unit; selfs: [()]; others: []);
-family!(fam_union_find; selfs: [UH, UB]; others: [UV, UA2, US, UO, UE]; uf: yes);
+family!(fam_union_find; selfs: [UH, UB]; others: [UV, UA2, US, UO, UE]; uf);
 
 pub fn families() -> Vec<Family> {
     vec![
@@ -355,8 +368,8 @@ pub fn entries() -> Vec<Entry> {
     ]);
     // is_bot / is_top
     each!(v, "C03", c03u, [
-        SH, SB, SV, SRaw, SA1, SA2, SA3, SS, SO, SE, MHH, MBB, MVH, MA2S, MA1B, MSS, MSH, MOO, MEH, NHX, NBX, NVX, NA2X, NSX, NOX,
-        PHW, PBW, PVW, PSW, QH, QB, QS, RH, RB_, RS,
+        SH, SB, SV, SRaw, SA1, SA2, SA3, SS, SO, SE, MHH, MBB, MA2S, MA1B, MSS, MSH, MOO, MEH, NHX, NBX, NA2X, NSX, NOX,
+        PHW, PBW, PSW, QH, QB, QS, RH, RB_, RS,
         XU, Max<i8>, Max<bool>, Max<char>, Max<u64>, Min<u8>, Min<i8>, Min<bool>, Min<char>, Min<u64>,
         WH, WB, WS, WO, WXU, WXB, TH, TB, TS, TXU, TXB, TNB, WTH, WTB, WTS, TWH, TWS, WWH, WTX,
         PA, PB, PS, PTX, PHH, DA, DB, DS, DN, DNS, DX, DP, DPS, VX, VH, VB, VS, VM, VMS, VW,
